@@ -50,6 +50,6 @@ def branch(rng):
         if neg:
             prog.append("흣.......")                                     # negate in place (sum to stack 7)
     # 흑 with c dots: copy the value to stack c and select it; the area pops the copy and compares it with the count c
-    prog.append("흑" + "." * c + op + rng.choice(["♥", "♥!❤" if op == "?" else "♥"]))
+    prog.append("흑" + "." * c + rng.choice(["❤", "❤", ""]) + op + rng.choice(["♥", "♥", ""]))    # left heart: taken, right heart: not taken
     prog += ["형" + "." * 66, "항."]
     return " ".join(prog)
